@@ -72,23 +72,24 @@ theorem denormalizeFlow_zero (ac : Bool) (n : Fin d → Nat) (s : K) : denormali
   funext i
   simp only [denormalizeFlow, zero_mul, Nat.cast_zero, ite_self, zero_div]
 
-theorem icScale_zero (units : Units) (n : Fin d → Nat) (spacing : Vec d K) : icScale units n spacing (fun _ => (0 : K)) = fun _ => 0 := by
+theorem icScale_zero (units : Units) (ac : Bool) (n : Fin d → Nat) (spacing : Vec d K) :
+    icScale units ac n spacing (fun _ => (0 : K)) = fun _ => 0 := by
   cases units
   · rfl
   · simp only [icScale, denormalizeFlow_zero]
   · funext i; simp only [icScale, denormalizeFlow_zero, Vec.mul, zero_mul]
 
-/-- 'voxel' as coded: `e · (n − 1) / 2` on every axis with more than one sample — whatever `align_corners`. -/
-theorem icScale_voxel (n : Fin d → Nat) (h2 : ∀ i, 2 ≤ n i) (spacing e : Vec d K) :
-    icScale .voxel n spacing e = fun i => e i * ((n i : K) - 1) / 2 := by
+/-- 'voxel': `e · (n − 1) / 2` (align_corners) resp. `e · n / 2` on every axis with more than one sample. -/
+theorem icScale_voxel (ac : Bool) (n : Fin d → Nat) (h2 : ∀ i, 2 ≤ n i) (spacing e : Vec d K) :
+    icScale .voxel ac n spacing e = fun i => e i * (if ac then (n i : K) - 1 else (n i : K)) / 2 := by
   funext i
   have h1 : 1 < n i := h2 i
   have h21 : ((2 : Nat) : K) ≠ ((1 : Nat) : K) := by push_cast; norm_num
-  simp only [icScale, denormalizeFlow, if_true, h1, ne_eq, h21, not_false_eq_true]
-  push_cast; ring
+  cases ac <;> simp only [icScale, denormalizeFlow, if_true, h1, ne_eq, h21, not_false_eq_true, Bool.false_eq_true, if_false] <;>
+    push_cast <;> ring
 
-theorem icScale_world (n : Fin d → Nat) (spacing e : Vec d K) :
-    icScale .world n spacing e = (icScale .voxel n spacing e).mul spacing := rfl
+theorem icScale_world (ac : Bool) (n : Fin d → Nat) (spacing e : Vec d K) :
+    icScale .world ac n spacing e = (icScale .voxel ac n spacing e).mul spacing := rfl
 
 /-! ### zero errors give a zero loss -/
 
@@ -123,8 +124,8 @@ theorem icVals_zero (sqrtF : K → K) (h0 : sqrtF 0 = 0) (ac : Bool) (n : Fin d 
   obtain ⟨idx, hidx, rfl⟩ := List.mem_map.mp hv
   simp only [icErrMasked_zero ac n fwd inv mask idx (hz idx hidx), icScale_zero, mul_zero, sumFin_eq, Finset.sum_const_zero, h0]
 
-theorem icReduce_zero (red : Reduction) (n : Fin d → Nat) (mask : Option ((Fin d → Int) → K)) (vals : List K)
-    (hv : ∀ v ∈ vals, v = 0) (r : List K) (hr : icReduce red n mask vals = .ok r) : ∀ v ∈ r, v = 0 := by
+theorem icReduce_zero (red : Reduction) (mask : Option ((Fin d → Int) → K)) (kept : List (Fin d → Int)) (vals : List K)
+    (hv : ∀ v ∈ vals, v = 0) (r : List K) (hr : icReduce red mask kept vals = .ok r) : ∀ v ∈ r, v = 0 := by
   unfold icReduce at hr
   cases red with
   | none => simp only [Except.ok.injEq] at hr; rw [← hr]; exact hv
@@ -133,9 +134,8 @@ theorem icReduce_zero (red : Reduction) (n : Fin d → Nat) (mask : Option ((Fin
     split_ifs at hr
     all_goals (simp only [Except.ok.injEq] at hr; rw [← hr]; simp)
   | sum =>
-    simp only [lsum_zero vals hv, zero_div] at hr
-    split_ifs at hr
-    all_goals (simp only [Except.ok.injEq] at hr; rw [← hr]; simp)
+    simp only [lsum_zero vals hv, Except.ok.injEq] at hr
+    rw [← hr]; simp
 
 /-- if the error vector vanishes at every grid point, every value the loss returns is zero — for
     every unit, margin, mask and reduction (`sqrtF 0 = 0`). -/
@@ -149,7 +149,7 @@ theorem icLoss_zero (sqrtF : K → K) (h0 : sqrtF 0 = 0) (ac : Bool) (n : Fin d 
   | error e => rw [hm] at hr; exact absurd hr (by simp)
   | ok m =>
     rw [hm] at hr
-    exact icReduce_zero red n mask _
+    exact icReduce_zero red mask _ _
       (icVals_zero sqrtF h0 ac n spacing fwd inv mask units _ (fun idx hidx => hz idx (icKept_sub n m idx hidx))) r hr
 
 end Reg
